@@ -207,7 +207,7 @@ def run(ctx):
             rep = oc.replay_dict(tsA, info, space=space, eps=1e-6, timepoints=np.array([0.0, 5.0, 20.0, 60.0]),
                                  standardize=False, old2new=old2new, tag="witness")
             lin_runs += [(got[0], tsA, False, rep), (got[1], tsB, False, rep)]
-    lin_runs += run_random(ctx, res, stats, ctx.n(30, 600), 1)
+    lin_runs += run_random(ctx, res, stats, ctx.n(30, 250), 1)
     correspondence(res, stats, lin_runs)
     res.rule = ("pairs (input, renumbering of its non-sample nodes) of msprime tree sequences with 2-7 samples at time 0 "
                 "and 1-12 trees, plus the 5-node witness of the Lean counterexample; inside_outside with "
